@@ -1,11 +1,11 @@
 #!/bin/bash
-# usage: tools/seed2.sh <prop> <seed-id>   — takes a second-round agent's deliverables (/tmp/seed2-<prop>-out) and confirms them
-P=$1; ID=$2
-WT=/tmp/seed2-$P; O=/tmp/seed2-$P-out
+# usage: tools/seed2.sh <prop> <seed-id> [round]   — takes a later-round agent's deliverables (/tmp/seed<round>-<prop>-out) and confirms them
+P=$1; ID=$2; R=${3:-2}
+WT=/tmp/seed$R-$P; O=/tmp/seed$R-$P-out
 export GOFLAGS=-mod=mod GOPROXY=off GOSUMDB=off GOTOOLCHAIN=local
 mkdir -p $WT/_seed && cp $O/patch.diff $O/meta.json $WT/_seed/ && cp $O/*_test.go $WT/_seed/
 PKG=$(python3 -c "import json;print(json.load(open('$O/meta.json'))['demo_package'])")
-PKG=${PKG#/tmp/seed2-$P/}; PKG=${PKG#./}
+PKG=${PKG#/tmp/seed$R-$P/}; PKG=${PKG#./}
 cp $O/*_test.go $WT/$PKG/
 RE=$(grep -ho "^func Test[A-Za-z0-9_]*" $O/*_test.go | sed 's/func //' | paste -sd'|')
 ( cd $WT && git checkout -q go.mod 2>/dev/null; git diff --quiet || true )
